@@ -163,6 +163,19 @@ class Interp:
         return Result(fn, ret, frame.returns, self.events, frame.env,
                       dict(self.attrs), self)
 
+    def run_module(self, module: Module) -> Result:
+        """interpret the module body (import-time code) as a function"""
+        node = ast.FunctionDef(
+            name="<module>",
+            args=ast.arguments(posonlyargs=[], args=[], kwonlyargs=[],
+                               kw_defaults=[], defaults=[]),
+            body=[s for s in module.tree.body
+                  if not isinstance(s, (ast.FunctionDef, ast.ClassDef,
+                                        ast.AsyncFunctionDef))],
+            decorator_list=[], lineno=1, col_offset=0)
+        fn = Function(module.name + ".<module>", "<module>", node, module)
+        return self.run(fn)
+
     def _make_frame(self, fn: Function, args: Dict[str, T],
                     self_cls: Optional[Class], depth: int) -> Frame:
         env: Dict[str, T] = {}
@@ -833,6 +846,9 @@ class Interp:
             q = self.prog.canonical(base.args[0] + "." + name)
             return self.qual_to_term(q)
         if base.op == "global":
+            if base.args[0].startswith("evo.") and isinstance(
+                    self.prog.lookup(base.args[0]), tuple):
+                return tm.attr(base, name)     # evo module constant object
             return tm.glob(base.args[0] + "." + name)
         if base.op == "cls":
             cq = base.args[0]
